@@ -67,7 +67,7 @@ func (rt *runtime) newNativeFunctionObject(name, file string, line int, native n
 			}, 0),
 			&nilGetSetObject,
 		},
-		mode: 0o000,
+		mode: 0o200, // accessor: no [[Writable]] attribute
 	}, false)
 	return o
 }
@@ -143,7 +143,7 @@ func (rt *runtime) newNodeFunctionObject(node *nodeFunctionLiteral, stash stashe
 			}),
 			&nilGetSetObject,
 		},
-		mode: 0o000,
+		mode: 0o200, // accessor: no [[Writable]] attribute
 	}, false)
 	return o
 }
